@@ -224,11 +224,13 @@ def make_error(rng, ns0, shape):
         t = defs[rng.choice(o)]
         d["refs"].append({"target": defs.index(t), "spell": "absolute", "array": None})
         lookups = [j for j in lookups if j != t["root"]]
+        if any(GN.full_name(ns, x) == GN.full_name(ns, t) and tuple(x["ver"]) == tuple(t["ver"]) and x["root"] in [0] + lookups for x in defs):
+            return None
         # other references into the withheld root would fail too, which is fine: the tree must be rejected
     elif shape == "relative-in-other-namespace":
         # a dot-less name is relative to the referrer's own namespace: a type that only exists elsewhere must not be found
-        o = [x for x in defs if (x["root"], x["ns"]) != (d["root"], d["ns"]) and x["kind"] == "msg"
-             and not any(y["short"].lower() == x["short"].lower() and (y["root"], y["ns"]) == (d["root"], d["ns"]) for y in defs)]
+        o = [x for x in defs if GN.namespace_of(ns, x) != GN.namespace_of(ns, d) and x["kind"] == "msg"
+             and not any(y["short"].lower() == x["short"].lower() and GN.namespace_of(ns, y).lower() == GN.namespace_of(ns, d).lower() for y in defs)]
         if not o:
             return None
         t = rng.choice(o)
